@@ -61,50 +61,52 @@ type Engine struct {
 	harness string
 
 	// per path
-	pc           []*Term
-	prefix       []bool
-	decisions    []bool
-	forced       []bool // parallel to decisions: true if the other side was infeasible
-	globals      map[*ssa.Global]*Cell
-	sentinels    map[string]Value
-	cellN        int
-	mapN         int
-	chanN        int
-	fpN          int
-	fpRound      int
-	steps        int
-	maxSteps     int
-	depth        int
-	symCount     map[string]int
-	inputs       []*Term
-	inputNames   map[string]bool
-	classes      []classRec
-	notes        []string
-	reached      []string
-	locks        map[*Cell]*lockSt
-	syncMaps     map[*Cell]*MapVal
-	pending      []goroutine
-	goRuns       int
-	rangeConds   []*Term
-	skippedGo    map[string]int
-	inexact      bool
-	choices      []int
-	mapOrder     func(m *MapVal, snap []*mapEntry) []*mapEntry
-	gob          *gobState
-	http         *httpModel
-	janitors     []Value // receivers of the janitor goroutines the constructors wanted to start
-	hashConcLens map[int]bool
-	hashSymLens  map[int]bool
-	hashAlwaysUF bool
-	hashApps     []hashApp
-	seqThreads   []*FuncVal
-	seqFinally   *FuncVal
-	trackCells   bool
-	allCells     []*Cell
-	allMaps      []*MapVal
-	allChans     []*ChanVal
-	fpExact      bool
-	fpIdeal      int
+	pc              []*Term
+	prefix          []bool
+	decisions       []bool
+	forced          []bool // parallel to decisions: true if the other side was infeasible
+	globals         map[*ssa.Global]*Cell
+	sentinels       map[string]Value
+	cellN           int
+	mapN            int
+	chanN           int
+	fpN             int
+	fpRound         int
+	steps           int
+	maxSteps        int
+	depth           int
+	symCount        map[string]int
+	inputs          []*Term
+	inputNames      map[string]bool
+	classes         []classRec
+	notes           []string
+	reached         []string
+	locks           map[*Cell]*lockSt
+	syncMaps        map[*Cell]*MapVal
+	pending         []goroutine
+	goRuns          int
+	rangeConds      []*Term
+	skippedGo       map[string]int
+	inexact         bool
+	choices         []int
+	mapOrder        func(m *MapVal, snap []*mapEntry) []*mapEntry
+	gob             *gobState
+	http            *httpModel
+	unknownBranches int
+	nextIsDeferCall bool
+	janitors        []Value // receivers of the janitor goroutines the constructors wanted to start
+	hashConcLens    map[int]bool
+	hashSymLens     map[int]bool
+	hashAlwaysUF    bool
+	hashApps        []hashApp
+	seqThreads      []*FuncVal
+	seqFinally      *FuncVal
+	trackCells      bool
+	allCells        []*Cell
+	allMaps         []*MapVal
+	allChans        []*ChanVal
+	fpExact         bool
+	fpIdeal         int
 
 	ev *eventCtx // event mode (L2), nil in sequential mode
 
@@ -175,6 +177,7 @@ func (e *Engine) resetPath() {
 	e.janitors = nil
 	e.hashConcLens = map[int]bool{}
 	e.hashSymLens = map[int]bool{}
+	e.hashAlwaysUF = false
 	e.hashApps = nil
 	e.fpExact = false
 	e.allCells, e.allMaps, e.allChans = nil, nil, nil
@@ -192,6 +195,8 @@ func (e *Engine) assume(c *Term) {
 	e.pc = append(e.pc, c)
 	e.evGuard(c)
 }
+
+const maxUnknownBranches = 4
 
 func (e *Engine) feasible(c *Term) SatResult {
 	return e.solver.Check(append(append([]*Term{}, e.pc...), c))
@@ -242,6 +247,12 @@ func (e *Engine) branch(c *Term) bool {
 	}
 	if rt == ResUnknown || rf == ResUnknown {
 		e.inexact = true
+		// every unknown costs a full solver timeout: a path condition the back end cannot decide
+		// (e.g. a 64-bit remainder by a large constant) must not turn into hours of timeouts
+		e.unknownBranches++
+		if e.unknownBranches > maxUnknownBranches || e.unknownBranches*e.solver.TimeoutS > 100 {
+			panic(engineErr("the solver answered unknown on %d branch conditions (last in %s): path feasibility cannot be decided with this encoding; result inconclusive", e.unknownBranches, c.Op))
+		}
 	}
 	switch {
 	case rt != ResUnsat && rf != ResUnsat:
